@@ -168,8 +168,9 @@ func weightsJSON(r *Rng, cids []string, distinct bool) J {
 	if r.chance(0.03) && len(cids) <= 8 {
 		// pairwise distinct weights that differ by less than any tolerance used anywhere (1e-6 / 1e-5)
 		base := float64(r.rangeInt(1, 3)) / 2
+		step := []float64{3e-7, 2e-10}[r.Intn(2)]
 		for i, j := range r.Perm(len(cids)) {
-			w[cids[i]] = base + float64(j)*3e-7
+			w[cids[i]] = base + float64(j)*step
 		}
 		return w
 	}
@@ -486,11 +487,12 @@ type Req struct {
 }
 
 type ReqOpts struct {
-	Methods   []string
-	Biases    []string // pool; nil = all
-	MaxBiases int
-	Prob      ProbOpts
-	NoProb    bool // applyProbability always omitted
+	Methods      []string
+	Biases       []string // pool; nil = all
+	MaxBiases    int
+	Prob         ProbOpts
+	NoProb       bool    // applyProbability always omitted
+	ExtraAltKeys float64 // probability of an undeclared attribute on every alternative
 }
 
 func problemJSON(p *Problem) (crit []interface{}, known []interface{}) {
@@ -534,6 +536,14 @@ func genRequest(r *Rng, o ReqOpts) *Req {
 	}
 	p := genProblem(r, po)
 	crit, known := problemJSON(p)
+	if o.ExtraAltKeys > 0 && method != "owa" && method != "choquetIntegral" && method != "weightedSum" && r.chance(o.ExtraAltKeys) {
+		// alternatives may carry more attributes than there are criteria (owa and Choquet reject them; the weighted-sum
+		// listener looks every attribute up in the weights, so criterion-ranking biases fail there — observation, §11.6)
+		for i, a := range known {
+			a.(J)["criteria"].(J)["zz_note"] = float64(i + 1)
+			p.Known[i].Criteria["zz_note"] = float64(i + 1)
+		}
+	}
 	body := J{"preferenceFunction": method, "criteria": crit, "knownAlternatives": known,
 		"choseToMake": append([]string{}, p.Chosen...), "methodParameters": methodParamsJSON(r, method, p),
 		"biasApplyRandomSeed": []int{0, 1, 2, 3, 4, 5, 6, 7}[r.Intn(8)] * r.Intn(12500)}
